@@ -291,6 +291,50 @@ INPUT_LAYOUTS = {
 }
 
 
+def check_refusals(tier, rep, root, seeds):
+    """What a refusing command says is output too: `link` over a fan (A; B, C, D import A; Main imports all) in which several things
+    are wrong at once - several stale dependents, several missing cores, a duplicate - must name the same culprit and print the same
+    text under every hash seed."""
+    build_cli()
+    proj = os.path.join(root, "refusals")
+    shutil.rmtree(proj, ignore_errors=True)
+    os.makedirs(proj + "/src"); os.makedirs(proj + "/out")
+    src = {"A": "package A\n\nfn a_f(x: int32) -> int32 { x + 1 }\n"}
+    for q in ("B", "C", "D"):
+        src[q] = f"package {q}\nimport A\n\nfn {q.lower()}_f(x: int32) -> int32 {{ A::a_f(x) }}\n"
+    src["Main"] = "package Main\nimport A\nimport B\nimport C\nimport D\n\nfn main() {\n    let _ = string_println(int32_to_string(B::b_f(1) + C::c_f(1) + D::d_f(1) + A::a_f(1)));\n    ()\n}\n"
+    order = ("A", "B", "C", "D", "Main")
+
+    def build(q):
+        open(f"{proj}/src/{q}.gom", "w").write(src[q])
+        rc, _, err = run_cli(["build", "--package", q, "--input", f"{proj}/src/{q}.gom", "--interface-path", f"{proj}/out", "--output", f"{proj}/out/{q}"])
+        if rc != 0:
+            raise ToolError(f"refusal family: build of {q} failed: {err[:300]}")
+    for q in order:
+        build(q)
+    core = lambda q: f"{proj}/out/{q}.core"
+    src["A"] = src["A"] + "fn a_g(x: int32) -> int32 { x }\n"
+    build("A")                       # B, C, D and Main are stale now
+    cases = {"four-stale-dependents": [core(q) for q in order],
+             "two-missing-dependencies": [core("Main"), core("B")],
+             "stale-and-missing": [core("Main"), core("A"), core("B")],
+             "all-but-main": [core(q) for q in order if q != "Main"]}
+    n = 0
+    for cname, inputs in cases.items():
+        seen = {}
+        for s in seeds:
+            rc, out, err = run_cli(["link", "--input"] + inputs + ["--output", f"{proj}/out/linked.go"], s)
+            n += 1
+            if rc == 0:
+                raise ToolError(f"refusal family: link accepted {cname}")
+            seen.setdefault(err.strip(), s)
+        if len(seen) > 1:
+            texts = sorted(seen)
+            rep.violation(f"nondeterministic:diags:link-refusal:{cname}", {"messages": texts[:3], "seeds": [seen[t] for t in texts[:3]]},
+                          replay={"inputs": inputs, "seeds": [seen[t] for t in texts[:2]]})
+    return {"refusing_links_run": n, "cases": len(cases)}
+
+
 def input_order_sources(rels):
     """{rel: text} of package Lib (one group of declarations per file, each file referring to the previous one) and app/main.gom"""
     files = {}
@@ -574,6 +618,7 @@ def run(tier, rep):
     rep.coverage["derive_both_family"] = check_derive_family(tier, rep, root)
     # ---- 5. the order in which the sources of a package are named on the command line of check / build
     rep.coverage["input_order_family"] = check_input_orders(tier, rep, root, seeds[0])
+    rep.coverage["refusal_family"] = check_refusals(tier, rep, root, seeds)
     rep.coverage.update({
         "states": states + r2.distinct + r3.distinct, "transitions": trans + r2.generated + r3.generated,
         "traces_validated_against_impl": orders_checked,
